@@ -14,6 +14,7 @@ import (
 	"time"
 
 	"github.com/rulego/streamsql"
+	"github.com/rulego/streamsql/schema"
 	"github.com/rulego/streamsql/stream"
 	"github.com/rulego/streamsql/types"
 )
@@ -44,6 +45,7 @@ type SeqScenario struct {
 	Seed       int64             `json:"seed"`
 	PrintTable bool              `json:"printtable"` // PrintTable() switched on next to the other consumers (it is a sink like any other: it only reads)
 	ColMap     map[string]string `json:"colmap"`     // data columns handed to the engine under other names (orig -> new); the trace keeps the original names
+	Schema     map[string]any    `json:"schema"`     // WithSchema: field name -> default value (typed, see Decode) for rows that lack the field; the caller's map stays as it was
 }
 
 // SeqPerf selects buffer sizes and the overflow strategy.
@@ -151,6 +153,13 @@ func RunSeq(sc SeqScenario) (evs []Ev, inconclusive string) {
 		opts = append(opts, streamsql.WithAnalyticMaxPartitions(sc.MaxPar))
 	}
 	opts = append(opts, perfOptions(sc.Perf)...)
+	if len(sc.Schema) > 0 {
+		sch := schema.Schema{Name: "in"}
+		for _, name := range sortedKeys(sc.Schema) {
+			sch.Fields = append(sch.Fields, schema.FieldDef{Name: name, Type: schema.TypeAny, Default: Decode(sc.Schema[name])})
+		}
+		opts = append(opts, streamsql.WithSchema(sch))
+	}
 	cl := &capLog{}
 	opts = append(opts, streamsql.WithLogger(cl))
 	s := newInstance(opts...)
@@ -625,4 +634,13 @@ func idleStall(in *Inst, s *streamsql.Streamsql) bool {
 	}
 	in.Stuck = false
 	return true
+}
+
+func sortedKeys(m map[string]any) []string {
+	ks := make([]string, 0, len(m))
+	for k := range m {
+		ks = append(ks, k)
+	}
+	sort.Strings(ks)
+	return ks
 }
